@@ -56,6 +56,10 @@ func (w *World) verifyFunction(fn *ssa.Function, ct *Contract, tag string, safeA
 				vc.fact(fmt.Sprintf("(< (rootref %s) hw!0)", t.S))
 			}
 		}
+		if t.Sort == SV && types.IsInterface(p.Type()) {
+			// whatever an interface parameter refers to existed at entry
+			vc.fact(fmt.Sprintf("(< (vref %s) hw!0)", t.S))
+		}
 		if i == 0 && fn.Signature.Recv() != nil {
 			if _, isPtr := p.Type().Underlying().(*types.Pointer); isPtr {
 				vc.fact(fmt.Sprintf("(not (= %s 0))", t.S))
